@@ -16,7 +16,9 @@ import (
 // honest peer may produce, once the peer unchokes for good and serves every
 // request it receives, the piece completes. The torrent's message handlers
 // (choke / unchoke / piece / reject) are mirrored literally; the peer side is a
-// model of an honest remote with or without the fast extension.
+// model of an honest remote with or without the fast extension. A fast peer may
+// answer a request it held over a choke with a reject that leaves after its next
+// unchoke (BEP 6 sets no deadline); those choices come from a PRNG stream of their own.
 
 type pdPeer struct {
 	fast     bool
@@ -46,11 +48,14 @@ func pdCase(k int) {
 	allowedFast := pe.fast && r.Intn(5) == 0
 	pool := bufferpool.New(int(length))
 	pd := piecedownloader.New(pi, pe, allowedFast, pool.Get(int(length)))
+	lateRejects := 0
 	choking := r.Intn(2) == 0 // peer state when the downloader is created (allowed-fast pieces start while choked)
 	if !allowedFast {
 		choking = false
 	}
 	run.Eval(1)
+	r2 := run.Rand("pd-late-reject", k)
+	over := map[uint32]bool{} // requests a fast peer held when it choked and has not answered yet
 	// mirrored handlers
 	onUnchoke := func() {
 		choking = false
@@ -67,6 +72,15 @@ func pdCase(k int) {
 		}
 		if !pd.Done() && (pd.AllowedFast || !choking) {
 			pd.RequestBlocks(q)
+		}
+	}
+	onReject := func(b [2]uint32) {
+		pe.log = append(pe.log, fmt.Sprintf("reject(%d)", b[0]))
+		pd.Rejected(b[0], b[1])
+		if !choking {
+			pe.log = append(pe.log, "(unchoked)")
+			pd.RequestBlocks(q)
+			lateRejects++
 		}
 	}
 	take := func(i int) [2]uint32 {
@@ -91,6 +105,11 @@ func pdCase(k int) {
 			pe.inflight = nil
 		}
 		// a fast peer answers every request it holds: reject (or serve); modelled as later steps
+		if pe.fast {
+			for _, b := range pe.inflight {
+				over[b[0]] = true
+			}
+		}
 	}
 	pd.RequestBlocks(q) // startSinglePieceDownloader
 	steps := r.Intn(40)
@@ -100,10 +119,17 @@ func pdCase(k int) {
 			if choking && pe.fast && !pd.AllowedFast {
 				// choked fast peer: reject
 				b := take(r.Intn(len(pe.inflight)))
-				pe.log = append(pe.log, fmt.Sprintf("reject(%d)", b[0]))
-				pd.Rejected(b[0], b[1])
+				delete(over, b[0])
+				onReject(b)
 			} else {
-				onPiece(take(r.Intn(len(pe.inflight))))
+				b := take(r.Intn(len(pe.inflight)))
+				held := over[b[0]]
+				delete(over, b[0])
+				if held && !choking && !pd.AllowedFast && r2.Intn(2) == 0 {
+					onReject(b) // the reject of a request held over the choke leaves after the unchoke
+				} else {
+					onPiece(b)
+				}
 			}
 		case c < 6 && len(late) > 0:
 			b := late[0]
@@ -125,9 +151,7 @@ func pdCase(k int) {
 	late = nil
 	if choking {
 		for pe.fast && !pd.AllowedFast && len(pe.inflight) > 0 {
-			b := take(0)
-			pe.log = append(pe.log, fmt.Sprintf("reject(%d)", b[0]))
-			pd.Rejected(b[0], b[1])
+			onReject(take(0))
 		}
 		onUnchoke()
 	}
@@ -143,6 +167,9 @@ func pdCase(k int) {
 		return
 	}
 	run.Count("pd_histories", 1)
+	if lateRejects > 0 {
+		run.Count("pd_histories_with_reject_after_unchoke", 1)
+	}
 	run.Distinct("pd|" + vx.Hash(pe.log))
 }
 
